@@ -502,3 +502,107 @@ Proof.
     apply Forall_app in H2. destruct H2 as [H2 H3]. apply Forall_app. split; [exact H2|now apply IH].
   - cbn [next]. rewrite En, copy_f_next. destruct add_self; [rewrite size_f_cons; cbn; lia|reflexivity].
 Qed.
+
+(* ------------------------------------------------------------------ *)
+(* Part 5: histories - source and copy are independent *)
+
+(* the existing tree an operation works on ([None]: it only creates a new tree) *)
+Definition op_tree (o : op) : option nat :=
+  match o with
+  | OAdd ti _ _ _ _ _ | OShort ti _ _ _ _ _ | OAddNode ti _ _ _ _ _ _ _ | OAddTree ti _ _ _ _
+  | OCopyTo _ _ ti _ _ _ _ | OMove ti _ _ _ _ | ORemove ti _ _ _ | ORemoveChildren ti _
+  | OSort ti _ _ _ _ | OSetData ti _ _ _ _ | ORename ti _ _ | OMeta ti _ _ | OClear ti | ODel ti _
+  | OFilter ti _ _ | OFromDict ti _ _ => Some ti
+  | OTreeCopy _ | ONodeCopy _ _ _ | ONewTree _ _ | OTreeFromDict _ => None
+  end.
+
+(* the tree an operation reads its copy source from *)
+Definition op_reads (o : op) : option nat :=
+  match o with
+  | OAddNode _ _ sti _ _ _ _ _ | OAddTree _ _ sti _ _ | OCopyTo sti _ _ _ _ _ _
+  | OTreeCopy sti | ONodeCopy sti _ _ => Some sti
+  | _ => None
+  end.
+
+Lemma op_target_tree w o : op_target w o = match op_tree o with Some ti => ti | None => length (trees w) end.
+Proof. destruct o; reflexivity. Qed.
+
+(* one step: every tree the operation does not work on is exactly as before *)
+Theorem step_other_tree w o b :
+  b < length (trees w) -> op_tree o <> Some b -> get_tree (snd (step w o)) b = get_tree w b.
+Proof.
+  intros Hb Hn. destruct (step_frame_trees w o) as (_ & H). apply H; [|exact Hb].
+  rewrite op_target_tree. destruct (op_tree o) as [ti|]; [congruence|lia].
+Qed.
+
+Lemma step_length w o : length (trees w) <= length (trees (snd (step w o))).
+Proof. apply (step_frame_trees w o). Qed.
+
+(* reading a copy source does not modify it *)
+Theorem reading_does_not_modify w o s :
+  op_reads o = Some s -> op_tree o <> Some s -> s < length (trees w) ->
+  get_tree (snd (step w o)) s = get_tree w s.
+Proof. intros _ Hn Hs. now apply step_other_tree. Qed.
+
+(* histories: any sequence of operations, none of which works on tree b *)
+Theorem run_other_tree : forall ops w b,
+  b < length (trees w) -> Forall (fun o => op_tree o <> Some b) ops ->
+  get_tree (run ops w) b = get_tree w b.
+Proof.
+  unfold run. induction ops as [|o ops IH]; intros w b Hb Hf; [reflexivity|]. cbn [fold_left].
+  inversion Hf as [|? ? H1 H2]; subst.
+  rewrite IH; [now apply step_other_tree| |exact H2].
+  pose proof (step_length w o). lia.
+Qed.
+
+(* the observation of a tree: forest (identities, data objects, data_ids, kinds,
+   metadata, child order), registry order, index *)
+Definition obs_tree (w : world) (b : nat) : option sx := option_map sx_tstate (get_tree w b).
+
+Corollary run_other_obs ops w b :
+  b < length (trees w) -> Forall (fun o => op_tree o <> Some b) ops -> obs_tree (run ops w) b = obs_tree w b.
+Proof. intros Hb Hf. unfold obs_tree. now rewrite run_other_tree. Qed.
+
+(* after ANY copy step from tree s into another tree c (an existing one: add(node),
+   add(tree), copy_to; or the new one made by Tree.copy / Node.copy), whatever the
+   outcome: the source is as before; every later history on c (and on any tree but s)
+   leaves the source unchanged; every later history on s (and on any tree but c)
+   leaves the copy unchanged *)
+Theorem copy_independent w o s c w1 :
+  op_reads o = Some s -> s < length (trees w) ->
+  c = op_target w o -> c <> s -> w1 = snd (step w o) ->
+  get_tree w1 s = get_tree w s /\
+  (forall ops, Forall (fun o' => op_tree o' <> Some s) ops -> get_tree (run ops w1) s = get_tree w s) /\
+  (forall ops, c < length (trees w1) -> Forall (fun o' => op_tree o' <> Some c) ops ->
+               get_tree (run ops w1) c = get_tree w1 c).
+Proof.
+  intros Hr Hs -> Hc ->.
+  assert (Hn : op_tree o <> Some s).
+  { rewrite op_target_tree in Hc. destruct (op_tree o) as [ti|]; congruence. }
+  assert (E : get_tree (snd (step w o)) s = get_tree w s) by now apply step_other_tree.
+  refine (conj E (conj _ _)).
+  - intros ops Hf. rewrite run_other_tree; [exact E| |exact Hf]. pose proof (step_length w o). lia.
+  - intros ops Hl Hf. now apply run_other_tree.
+Qed.
+
+(* Tree.copy() / Node.copy(): the new tree is the last one *)
+Lemma new_tree_target w o : op_tree o = None -> op_target w o = length (trees w).
+Proof. intros H. now rewrite op_target_tree, H. Qed.
+
+Corollary tree_copy_independent w s c w1 :
+  step w (OTreeCopy s) = (Ok [c], w1) ->
+  c = length (trees w) /\ s < c /\ c < length (trees w1) /\
+  get_tree w1 s = get_tree w s /\
+  (forall ops, Forall (fun o' => op_tree o' <> Some s) ops -> get_tree (run ops w1) s = get_tree w s) /\
+  (forall ops, Forall (fun o' => op_tree o' <> Some c) ops -> get_tree (run ops w1) c = get_tree w1 c).
+Proof.
+  intros H. cbn [step] in H.
+  destruct (tree_copy_effect w s _ _ H) as (st & kids & rg & ix & Est & Er & Et & _).
+  injection Er as ->.
+  assert (Hs : s < length (trees w)) by (apply nth_error_Some; unfold get_tree in Est; congruence).
+  assert (Hl : length (trees w) < length (trees w1)) by (rewrite Et, app_length; cbn; lia).
+  destruct (copy_independent w (OTreeCopy s) s (length (trees w)) w1 eq_refl Hs eq_refl) as (E1 & E2 & E3).
+  - lia.
+  - cbn [step]. now rewrite H.
+  - refine (conj eq_refl (conj Hs (conj Hl (conj E1 (conj E2 _))))). intros ops Hf. now apply E3.
+Qed.
